@@ -1114,6 +1114,8 @@ fn scenario_traffic(sc: &str) -> Result<Violations, String> {
     use nundb::disk_ops::{snapshot_keys, Oplog};
     use nundb::replication_ops::start_replication_thread;
     let p: Vec<&str> = sc.split('|').collect();
+    // "cluster|<strategy>|<P|S: the node the client talks to>|<command>": two nodes wired in process (see scenario_traffic_cluster)
+    if p.len() == 4 && p[0] == "cluster" { return scenario_traffic_cluster(p[1], p[2], p[3]); }
     if p.len() != 5 { return Err("bad scenario".into()); }
     let idx: usize = p[4].parse().map_err(|_| "bad index")?;
     let dir = std::env::var("NUN_DBS_DIR").map_err(|_| "NUN_DBS_DIR not set")?;
@@ -1197,6 +1199,81 @@ fn scenario_traffic(sc: &str) -> Result<Violations, String> {
     Oplog::clean_op_log_metadata_files();
     Ok(v)
 }
+
+/// C14, two nodes wired in process: a primary P (its REAL replication thread does the fan-out) and a secondary S; every line a node hands to the other's link is delivered through
+/// process_request on an authenticated peer session whose own channel leads back.  One client command is issued, then whole rounds of deliveries are run: the exchange must die out.
+fn scenario_traffic_cluster(strategy: &str, origin: &str, cmd: &str) -> Result<Violations, String> {
+    use nundb::disk_ops::{snapshot_keys, Oplog};
+    use nundb::replication_ops::start_replication_thread;
+    let dir = std::env::var("NUN_DBS_DIR").map_err(|_| "NUN_DBS_DIR not set")?;
+    Oplog::clean_op_log_metadata_files();
+    let _ = std::fs::remove_file(format!("{}/keys-nun.keys", dir));
+    let mk = |me: &str, role: ClusterRole| -> (Arc<Databases>, Receiver<String>) {
+        let (s1, r1): (Sender<String>, Receiver<String>) = channel(1000);
+        let (s2, r2): (Sender<String>, Receiver<String>) = channel(1000);
+        std::mem::forget(r1);
+        let d = Arc::new(Databases::new("u".into(), "p".into(), me.into(), me.into(), s1, s2, HashMap::new(), 1, true));
+        d.node_state.swap(ClusterRole::Primary as usize, std::sync::atomic::Ordering::Relaxed);
+        let w = World { dbs: d.clone() };
+        let (mut admin, mut arx) = Client::new_empty_and_receiver();
+        for c in ["auth u p".to_string(), format!("create-db d tok {}", strategy), "use-db d tok".to_string(), "set k a".into(), "set k b".into(), "set k c".into(), "set cnt 3".into()] { run_cmd(&w, &mut admin, &mut arx, &c); }
+        std::mem::forget(arx);
+        d.node_state.swap(role as usize, std::sync::atomic::Ordering::Relaxed);
+        (d, r2)
+    };
+    let (pd, mut p_queue) = mk("p:1", ClusterRole::Primary);
+    let (sd, mut s_queue) = mk("s:1", ClusterRole::Secoundary);
+    snapshot_keys(&pd);
+    drain(&mut p_queue); drain(&mut s_queue);
+    let (to_s, mut link_ps): (Sender<String>, Receiver<String>) = channel(1000);   // what P hands to S's link
+    let (to_p, mut link_sp): (Sender<String>, Receiver<String>) = channel(1000);   // what S hands to P's link
+    pd.add_cluster_member(ClusterMember { name: "p:1".into(), role: ClusterRole::Primary, sender: None });
+    pd.add_cluster_member(ClusterMember { name: "s:1".into(), role: ClusterRole::Secoundary, sender: Some(to_s) });
+    sd.add_cluster_member(ClusterMember { name: "p:1".into(), role: ClusterRole::Primary, sender: Some(to_p) });
+    sd.add_cluster_member(ClusterMember { name: "s:1".into(), role: ClusterRole::Secoundary, sender: None });
+    let pw = World { dbs: pd.clone() }; let sw = World { dbs: sd.clone() };
+    // the two ends of the link: P's session for what S sends (its answers go to S), S's session for what P sends (its answers - the acks - go to P)
+    let (mut at_p, mut back_to_s) = Client::new_empty_and_receiver(); at_p.auth.swap(true, std::sync::atomic::Ordering::Relaxed);
+    let (mut at_s, mut back_to_p) = Client::new_empty_and_receiver(); at_s.auth.swap(true, std::sync::atomic::Ordering::Relaxed);
+    // the primary announced itself over its link when the cluster formed: S's end of the link is tagged "the primary is at the other end"
+    run_cmd(&sw, &mut at_s, &mut back_to_p, "set-primary p:1");
+    drain(&mut s_queue); drain(&mut link_sp);
+    let mut v: Violations = vec![];
+    let ok = catch_unwind(AssertUnwindSafe(|| {
+        let (mut c, mut crx) = Client::new_empty_and_receiver();
+        let w = if origin == "P" { &pw } else { &sw };
+        run_cmd(w, &mut c, &mut crx, "auth u p"); run_cmd(w, &mut c, &mut crx, "use-db d tok");
+        run_cmd(w, &mut c, &mut crx, cmd);
+        let mut per_round: Vec<usize> = vec![];
+        for _round in 0..8 {
+            // P's replication thread takes what P queued and hands the copies to S's link
+            let queued = drain(&mut p_queue);
+            if !queued.is_empty() {
+                let (mut tx, rx): (Sender<String>, Receiver<String>) = channel(1000);
+                for q in &queued { tx.try_send(q.clone()).unwrap(); }
+                tx.try_send("exit".to_string()).unwrap();
+                futures::executor::block_on(start_replication_thread(rx, pd.clone()));
+            }
+            drain(&mut s_queue);   // a secondary's replication thread only logs (C14.secondary-never-fans-out, decided elsewhere)
+            let copies = drain(&mut link_ps);
+            for l in &copies { run_cmd(&sw, &mut at_s, &mut back_to_p, l); }
+            let forwards = drain(&mut link_sp);
+            for l in &forwards { run_cmd(&pw, &mut at_p, &mut back_to_s, l); }
+            let acks: Vec<String> = drain(&mut back_to_p).into_iter().filter(|l| l.starts_with("ack ")).collect();
+            for l in &acks { run_cmd(&pw, &mut at_p, &mut back_to_s, l.trim()); }
+            drain(&mut back_to_s);
+            per_round.push(copies.len() + forwards.len() + acks.len());
+            if copies.is_empty() && forwards.is_empty() && acks.is_empty() { break; }
+        }
+        per_round
+    }));
+    let per_round = match ok { Ok(x) => x, Err(_) => { v.push("C10.safety".into()); return Ok(v); } };
+    if std::env::var("VERIF_TRACE").is_ok() { eprintln!("messages per round: {:?}", per_round); }
+    // one client operation: a bounded burst (a forward, a copy, an acknowledgement - a few rounds at most), then silence
+    chk(&mut v, "C14.bounded-burst-then-silence", per_round.last() == Some(&0) && per_round.len() <= 4);
+    Oplog::clean_op_log_metadata_files();
+    Ok(v)
+}
 fn all_traffic_scenarios() -> Vec<String> {
     let mut out = vec![];
     for role in ["S", "P", "U", "T", "D"] { for st in ["none", "newer", "arbiter"] { for arb in ["0", "1"] {
@@ -1204,6 +1281,9 @@ fn all_traffic_scenarios() -> Vec<String> {
         if arb == "1" && st != "arbiter" { continue; }
         for i in 0..TRAFFIC_CLIENT.len() { out.push(format!("{}|{}|{}|c|{}", role, st, arb, i)); }
         for i in 0..TRAFFIC_PEER.len() { out.push(format!("{}|{}|{}|p|{}", role, st, arb, i)); }
+    } } }
+    for st in ["none", "newer", "arbiter"] { for origin in ["P", "S"] { for cmd in ["set k v", "set-safe k 1 v", "increment cnt 1", "remove k", "resolve 5 d k 3 v", "create-user eve et"] {
+        out.push(format!("cluster|{}|{}|{}", st, origin, cmd));
     } } }
     out
 }
